@@ -129,6 +129,21 @@ class Rewriter(ast.NodeTransformer):
                 ast.Call(ast.Name('__sym_method__', ast.Load()), [f.value, ast.Constant(f.attr)], []), f)
         return n
 
+    def visit_BinOp(self, n):
+        self.generic_visit(n)
+        if isinstance(n.op, (ast.BitAnd, ast.BitOr, ast.BitXor, ast.Sub)):
+            op = {ast.BitAnd: '&', ast.BitOr: '|', ast.BitXor: '^', ast.Sub: '-'}[type(n.op)]
+            return ast.copy_location(ast.Call(ast.Name('__sym_setop__', ast.Load()), [ast.Constant(op), n.left, n.right], []), n)
+        return n
+
+    def visit_Set(self, n):
+        self.generic_visit(n)
+        return ast.copy_location(ast.Call(ast.Name('__sym_mkset__', ast.Load()), [n], []), n)
+
+    def visit_SetComp(self, n):
+        self.generic_visit(n)
+        return ast.copy_location(ast.Call(ast.Name('__sym_mkset__', ast.Load()), [n], []), n)
+
     def visit_Subscript(self, n):
         self.generic_visit(n)
         if isinstance(n.ctx, ast.Load) and not isinstance(n.slice, (ast.Slice, ast.Tuple)):
@@ -186,7 +201,7 @@ class Loader(importlib.abc.Loader):
         d = m.__dict__
         d.update(__sym_join__=core.sym_join, __sym_fmt__=core.sym_fmt, __sym_in__=core.sym_in,
                  __sym_str__=core.sym_str, __sym_method__=core.sym_method, __sym_getitem__=core.sym_getitem,
-                 __sym_print__=core.sym_print)
+                 __sym_print__=core.sym_print, __sym_setop__=_make_setop(d), __sym_mkset__=_make_mkset(d))
         import warnings
         with warnings.catch_warnings():
             warnings.simplefilter('ignore')
@@ -195,6 +210,31 @@ class Loader(importlib.abc.Loader):
         fixup(m)
         for cb in POST_EXEC:
             cb(m)
+
+
+def _wrap_set(d, r):
+    """sets created by instrumented code take the module's `set` class (equality-scan membership; iteration order symbolic where
+    a check installs the order-symbolic class), whatever expression created them"""
+    if type(r) in (set, frozenset):
+        cls = d.get('set', core.SymSet)
+        if cls is not set and cls is not builtins.set:
+            return cls(r)
+    return r
+
+
+def _make_setop(d):
+    import operator
+    ops = {'&': operator.and_, '|': operator.or_, '^': operator.xor, '-': operator.sub}
+
+    def setop(op, a, b):
+        return _wrap_set(d, ops[op](a, b))
+    return setop
+
+
+def _make_mkset(d):
+    def mkset(r):
+        return _wrap_set(d, r)
+    return mkset
 
 
 def fixup(m):
